@@ -125,7 +125,7 @@ func init() {
 			su.MaxTx = 10
 			rate := []float64{0.01, 0.02, 0.04}[rng.Intn(3)]
 			su.Policy = &NoisePolicy{Rng: rng, Sess: su.Sess, CheckRate: 0.02, CrashRate: rate, ReplayCrashRate: rate * 2, MaxCrashes: 12}
-			su.Between = RestartBetween(0.6)
+			su.Between = RestartAndJoinBetween(0.6, 0.03, nv+3, k.NumValidators)
 			su.PlanHook = AbsentHook(0.05)
 			return su
 		},
